@@ -13,7 +13,7 @@ sys.path.insert(0, os.path.dirname(os.path.dirname(os.path.abspath(__file__))))
 from pyvc import native
 
 violations, counts = [], {}
-native.install(violations, counts)
+native.install(violations, counts, prefixes=("_session:", "_messages:"))
 import sansldap
 from sansldap import LDAPClient, LDAPServer
 from sansldap._session import SessionState, LDAPError, ProtocolError, ExtendedOperations
